@@ -34,6 +34,10 @@ LEAN = VERIF / "lean"
 PY = "/venv/bin/python"
 NCPU = min(16, os.cpu_count() or 4)
 GUARD = "OCTAVE_MCP_VERIF"
+# The implementation under test is always imported from REPO/src (the working tree), also in
+# subprocesses; VERIF_REPO=/some/worktree redirects every check to another tree.
+sys.path.insert(0, str(SRC))
+os.environ["PYTHONPATH"] = str(SRC) + (os.pathsep + os.environ["PYTHONPATH"] if os.environ.get("PYTHONPATH") else "")
 
 STD_AXIOMS = {"propext", "Classical.choice", "Quot.sound"}
 FORBIDDEN = [
@@ -316,13 +320,13 @@ def fingerprint(rel: str, qual: str | None = None) -> str:
 def fingerprints_changed(prop: str, anchors) -> list:
     """Compare current fingerprints of the modelled functions with the committed ones.
     anchors: [(relpath, qualname|None)]. A change never fails a check; it widens the search."""
-    fp_file = VERIF / "fingerprints.json"
+    fp_file = VERIF / "fingerprints" / f"{prop}.json"
     stored = json.loads(fp_file.read_text()) if fp_file.exists() else {}
     cur = {f"{r}:{q or '*'}": fingerprint(r, q) for (r, q) in anchors}
-    changed = [k for k, v in cur.items() if stored.get(prop, {}).get(k) not in (None, v)]
+    changed = [k for k, v in cur.items() if stored.get(k) not in (None, v)]
     if os.environ.get("VERIF_UPDATE_FINGERPRINTS"):
-        stored[prop] = cur
-        fp_file.write_text(json.dumps(stored, indent=1, sort_keys=True) + "\n")
+        fp_file.parent.mkdir(exist_ok=True)
+        fp_file.write_text(json.dumps(cur, indent=1, sort_keys=True) + "\n")
     return changed
 
 
@@ -331,11 +335,11 @@ def fingerprints_changed(prop: str, anchors) -> list:
 # --------------------------------------------------------------------------------------------
 
 def load_findings(prop: str):
-    """known_findings.txt lines:
+    """known_findings/<prop>.txt lines:
        open: property=C01 id=F4 class=<name> what=<text> witness=<json>
        fixed: property=C04 <commit> <what failed>
     Only `open` lines suppress anything."""
-    f = VERIF / "known_findings.txt"
+    f = VERIF / "known_findings" / f"{prop}.txt"
     res = []
     if not f.exists():
         return res
